@@ -43,6 +43,9 @@ def case_strategy(draw, tier):
         'worker_topics': draw(st.sampled_from([['main'], ['main', 'aux']])),
         'join_work': draw(st.lists(scen.work_ms, min_size=1, max_size=2)),
         'join_relay': draw(st.booleans()),
+        # a joining filter with an output may swallow frames (process() returns None): its next recv() is then not coupled to a send
+        'join_skip': sorted(draw(st.sets(st.integers(0, 15), max_size=4))),
+        'join_low_latency': draw(st.sampled_from([None, None, True])),
         'watch': sorted(draw(st.sets(st.integers(0, nb - 1), max_size=2))),
         'required': draw(st.booleans()),
         'net': draw(scen.net_strategy(max_drops=0)),
@@ -68,7 +71,8 @@ def build_nodes(case):
         nodes.append({'id': wid, 'sources': [{'from': split, 'k': i}], 'beh': {'kind': 'xf', 'work': case['worker_work'][i], 'topics': case['worker_topics']},
                       'start': st_[2 + i], 'required': ['J'] if case['required'] else None})
     nodes.append({'id': 'J', 'sources': [{'from': w, 'k': 0} for w in workers], 'sbal': True, 'nout': 1 if case['join_relay'] else 0,
-                  'beh': {'kind': 'xf' if case['join_relay'] else 'sink', 'work': case['join_work']}, 'start': st_[6]})
+                  'beh': {'kind': 'xf' if case['join_relay'] else 'sink', 'work': case['join_work'], 'skip': case.get('join_skip') if case['join_relay'] else None},
+                  'start': st_[6], **({'cfg': {'sources_low_latency': True}} if case.get('join_low_latency') else {})})
     if case['join_relay']:
         nodes.append({'id': 'Z', 'sources': ['J'], 'nout': 0, 'beh': {'kind': 'sink'}, 'start': st_[7]})
     for i in case['watch']:
